@@ -132,3 +132,11 @@ package node
 //@   assert@call(Query,1): $arg1.Height == (old(req.Height) == 0 ? bheight(ctrler.lastBlockCtx) : old(req.Height)) && $arg1.Data == old(req.Data) && $arg1.Path == old(req.Path)   [C19]
 //@   assert@call(Query,2): $arg1.Height == (old(req.Height) == 0 ? bheight(ctrler.lastBlockCtx) : old(req.Height)) && $arg1.Data == old(req.Data) && $arg1.Path == old(req.Path)   [C19]
 //@   assert@call(Query,3): $arg1.Height == (old(req.Height) == 0 ? bheight(ctrler.lastBlockCtx) : old(req.Height)) && $arg1.Data == old(req.Data)   [C19]
+
+// ---- genesis (C03): the chain id the node verifies signatures against, and persists for restarts, is the one
+// the consensus engine hands over
+//@ func (ctrler *RigoApp) InitChain(req)
+//@   requires ctrler != nil && ctrler.rootConfig != nil && ctrler.metaDB != nil && ctrler.govCtrler != nil && ctrler.acctCtrler != nil && ctrler.stakeCtrler != nil
+//@   modifies everything
+//@   assert@store(Config.ChainID,0): $value == req.ChainId                                                     [C03]
+//@   assert@call(PutChainID,0): $arg1 == req.ChainId                                                           [C03,C07]
